@@ -17,9 +17,11 @@ Implementation-side oracle (no Coq model involved): the harness keeps the list o
 torn record never reported, appended record read back, existing file not overwritten; for blocks:
 prod(nBlocks) == nProcs and a numpy coverage count == 1 on every grid point.
 """
+import ast
 import concurrent.futures
 import itertools
 import os
+import re
 import struct
 
 import numpy as np
@@ -84,6 +86,17 @@ def op_lit(op):
     raise ValueError(k)
 
 
+def op_from_json(j):
+    k = j[0]
+    if k == 'new':
+        h = dict(j[1])
+        h['coords'] = [bytes.fromhex(c) for c in h['coords']]
+        return ('new', h)
+    if k == 'add':
+        return ('add', j[1], j[2], j[3], bytes.fromhex(j[4]), bytes.fromhex(j[5]))
+    return tuple(j)
+
+
 def op_json(op):
     return [x.hex() if isinstance(x, (bytes, bytearray)) else
             ({**x, 'coords': [c.hex() for c in x['coords']]} if isinstance(x, dict) else x) for x in op]
@@ -125,10 +138,10 @@ class Real:
 
     def snap(self):
         if not os.path.isfile(self.path):
-            return 'SAbsent'
+            return 'PAbsent'
         with open(self.path, 'rb') as f:
             b = f.read()
-        return ('SFile', bz(b))
+        return ('PFile', bz(b))
 
     def raw(self):
         if not os.path.isfile(self.path):
@@ -155,79 +168,118 @@ class Real:
                     o = fio.Rectilinear(fio.DTYPES[h['dt']], self.path)
                     o.setHeader(nVar=h['nVar'], coords=[np.frombuffer(c, dtype=np.float64).copy() for c in h['coords']])
                 self.handles.append((o, h))
-                return ('ROk', 'SKeep')
+                return ('POk', 'PKeep')
             if k == 'init':
                 o, h = self.handles[op[1]]
                 fio.FieldsIO.ALLOW_OVERWRITE = bool(op[2])
                 try:
                     o.initialize()
                 except AssertionError:
-                    return (('RErr', 'EAssert'), 'SKeep')
+                    return (('PErr', 'EAssert'), 'PKeep')
                 except FileExistsError:
-                    return (('RErr', 'EExists'), self.snap())
+                    return (('PErr', 'EExists'), self.snap())
                 finally:
                     fio.FieldsIO.ALLOW_OVERWRITE = False
-                return ('ROk', self.snap())
+                return ('POk', self.snap())
             if k == 'open':
                 cls = [fio.FieldsIO, fio.Scalar, fio.Rectilinear][op[1]]
                 o = cls.fromFile(self.path)
                 h = self.header_of(o)
                 self.handles.append((o, h))
-                return (('RHdr', 'SScalar' if h['kind'] == 'S' else 'SRect', h['dt'], h['nVar'], [bz(c) for c in h['coords']]), 'SKeep')
+                return (('PHdr', 'SScalar' if h['kind'] == 'S' else 'SRect', h['dt'], h['nVar'], [bz(c) for c in h['coords']]), 'PKeep')
             if k == 'add':
                 o, h = self.handles[op[1]]
                 dt, n, tb, pb = op[2], op[3], op[4], op[5]
                 arr = np.frombuffer(pb, dtype=fio.DTYPES[dt]).copy()
                 if arr.size != n:
-                    raise RuntimeError('harness: payload size')
+                    raise SystemError('harness: payload size')
                 if h['kind'] == 'R' and n == nitems(h) and n > 0:
                     arr = arr.reshape((h['nVar'],) + tuple(len(c) // 8 for c in h['coords']))
                 try:
                     o.addField(struct.unpack('<d', tb)[0], arr)
                 except AssertionError:
-                    return (('RErr', 'EAssert'), self.snap())
+                    return (('PErr', 'EAssert'), self.snap())
                 except FileNotFoundError:
-                    return (('RErr', 'ENotFound'), self.snap())
+                    return (('PErr', 'ENotFound'), self.snap())
                 except ValueError:
-                    return (('RErr', 'EValue'), self.snap())
-                return ('ROk', self.snap())
+                    return (('PErr', 'EValue'), self.snap())
+                return ('POk', self.snap())
             if k == 'read':
                 o, h = self.handles[op[1]]
                 t, u = o.readField(op[2])
                 if h['kind'] == 'R' and tuple(u.shape) != (h['nVar'],) + tuple(len(c) // 8 for c in h['coords']):
-                    return (('RErr', 'BadShape'), 'SKeep')
+                    return (('PErr', 'BadShape'), 'PKeep')
                 if u.dtype != fio.DTYPES[h['dt']]:
-                    return (('RErr', 'BadDtype'), 'SKeep')
-                return (('RRec', bz(struct.pack('<d', t)), bz(np.ascontiguousarray(u).tobytes())), 'SKeep')
+                    return (('PErr', 'BadDtype'), 'PKeep')
+                return (('PRec', bz(struct.pack('<d', t)), bz(np.ascontiguousarray(u).tobytes())), 'PKeep')
             if k == 'time':
                 o, h = self.handles[op[1]]
                 t = o.time(op[2])
-                return (('RTimes', bz(struct.pack('<d', t))), 'SKeep')
+                return (('PTimes', bz(struct.pack('<d', t))), 'PKeep')
             if k == 'times':
                 o, h = self.handles[op[1]]
                 ts = o.times
-                return (('RTimes', bz(b''.join(struct.pack('<d', t) for t in ts))), 'SKeep')
+                return (('PTimes', bz(b''.join(struct.pack('<d', t) for t in ts))), 'PKeep')
             if k == 'nfields':
                 o, h = self.handles[op[1]]
-                return (('RNum', int(o.nFields)), 'SKeep')
+                return (('PNum', int(o.nFields)), 'PKeep')
             if k == 'trunc':
                 if os.path.isfile(self.path):
                     if op[1] < os.path.getsize(self.path):
                         os.truncate(self.path, op[1])
-                    return ('ROk', self.snap())
-                return ('ROk', 'SAbsent')
+                    return ('POk', self.snap())
+                return ('POk', 'PAbsent')
             if k == 'remove':
                 if os.path.isfile(self.path):
                     os.remove(self.path)
-                return ('ROk', 'SAbsent')
-        except (AssertionError, FileExistsError, FileNotFoundError, ValueError, KeyError, TypeError) as e:
-            return (('RErr', ERRS[type(e).__name__]), 'SKeep')
+                return ('POk', 'PAbsent')
+        except SystemError:
+            raise
+        except Exception as e:     # noqa — any other exception class is reported as such and differs from the model
+            name = type(e).__name__
+            return (('PErr', ERRS.get(name, name)), 'PKeep')
         raise ValueError(k)
 
 
-def norm_model(v):
-    """parse_coq_value output -> same normal form as Real.do (tuples/lists/ints/strings)."""
-    return v
+ERR_CODE = {'EAssert': 1, 'EExists': 2, 'ENotFound': 3, 'EValue': 4, 'EKey': 5, 'EType': 6}
+
+
+def enc_res(r):
+    """Symbolic result of Real.do -> the uniform tuple Model.FieldsIO.show_res prints."""
+    if r == 'POk':
+        return (0, 0, 0, [], [])
+    k = r[0]
+    if k == 'PErr':
+        return (1, ERR_CODE.get(r[1], -1), 0, [], [])
+    if k == 'PNum':
+        return (2, r[1], 0, [], [])
+    if k == 'PRec':
+        return (3, 0, 0, [r[1][0], r[2][0]], [r[1][1], r[2][1]])
+    if k == 'PTimes':
+        return (4, 0, 0, [r[1][0]], [r[1][1]])
+    if k == 'PHdr':
+        return (5 + (0 if r[1] == 'SScalar' else 1), r[2], r[3], [c[0] for c in r[4]], [c[1] for c in r[4]])
+    raise ValueError(r)
+
+
+def enc_snap(s):
+    if s == 'PKeep':
+        return (0, 0, 0, [], [])
+    if s == 'PAbsent':
+        return (1, 0, 0, [], [])
+    return (2, 0, 0, [s[1][0]], [s[1][1]])
+
+
+def enc_obs(o):
+    return enc_res(o[0]) + (enc_snap(o[1]),)
+
+
+_SUFFIX = re.compile(r'%[A-Za-z0-9_]+')
+
+
+def fast_parse(text):
+    """Coq prints nested tuples/lists of numbers; after ; -> , this is a Python literal."""
+    return ast.literal_eval(_SUFFIX.sub('', text).replace(';', ','))
 
 
 # ----------------------------------------------------------------------------- implementation-side oracle
@@ -242,20 +294,31 @@ class Spec:
         self.after_torn = False
         self.header_torn = False   # file is a strict prefix of a header
 
-    def check(self, op, res, real, fail):
+    def check(self, op, res, real, fail, pre=None):
         """Updates the expectation with op and checks the real result `res` against it.
-        fail(kind, message, extra) reports an oracle failure."""
+        fail(kind, message, extra) reports an oracle failure.  pre = state before the op (file bytes, initialized flag)."""
         k = op[0]
         r, sn = res
         hs = real.handles
+        if k == 'init' and pre is not None:
+            after = real.raw()
+            if pre['inited']:
+                if r != ('PErr', 'EAssert') or after != pre['raw']:
+                    fail('overwrite', 'initialize() on an already initialised handle must raise and leave the file alone', {})
+            elif pre['raw'] is not None and not op[2]:
+                if r != ('PErr', 'EExists') or after != pre['raw']:
+                    fail('overwrite', 'initialize() with ALLOW_OVERWRITE=False changed or did not refuse an existing file (result %r)' % (r,), {})
+            else:
+                if r != 'POk':
+                    fail('init-refused', 'initialize() refused although %s: %r' % ('overwriting is allowed' if op[2] else 'no file exists', r), {})
         if k == 'init':
-            if r == 'ROk':
+            if r == 'POk':
                 self.h = hs[op[1]][1]
                 self.recs, self.torn, self.after_torn, self.header_torn = [], False, False, False
                 b = real.raw()
                 if b is None or len(b) != hsize(self.h):
                     fail('header', 'initialize() left a file whose size is not hSize', {})
-            elif r == ('RErr', 'EExists'):
+            elif r == ('PErr', 'EExists'):
                 pass
             return
         if k == 'remove':
@@ -279,21 +342,21 @@ class Spec:
             return
         if k == 'add':
             if self.h is None:
-                if r == 'ROk':
+                if r == 'POk':
                     self.header_torn = False
                 return
             hk = hs[op[1]][1]
             if hkey(hk) != hkey(self.h):
-                if r == 'ROk':
+                if r == 'POk':
                     self.h = None      # a foreign handle wrote into the file: no claim
                 return
             valid = op[2] == self.h['dt'] and op[3] == nitems(self.h) and hs[op[1]][0].initialized
             if not valid:
-                if r == 'ROk':
+                if r == 'POk':
                     fail('add-accepts-invalid', 'addField accepted a field of wrong dtype/size or on a non-initialised handle', {})
                     self.h = None
                 return
-            if r != 'ROk':
+            if r != 'POk':
                 fail('add-failed', 'addField raised on a valid field: %r' % (r,), {})
                 self.h = None
                 return
@@ -308,7 +371,7 @@ class Spec:
                 return      # checked by the caller (needs nFields of the new handle)
             if self.h is None:
                 return
-            want = ('RHdr', 'SScalar' if self.h['kind'] == 'S' else 'SRect', self.h['dt'], self.h['nVar'], [bz(c) for c in self.h['coords']])
+            want = ('PHdr', 'SScalar' if self.h['kind'] == 'S' else 'SRect', self.h['dt'], self.h['nVar'], [bz(c) for c in self.h['coords']])
             if r != want:
                 fail('header', 'fromFile does not return the header that was written', {'got': repr(r)[:300], 'want': repr(want)[:300]})
             return
@@ -320,19 +383,19 @@ class Spec:
             n = len(self.recs)
             kind = 'append_after_torn_record' if self.after_torn else ('crash_prefix' if self.torn else 'roundtrip')
             if k == 'nfields':
-                if r != ('RNum', n):
+                if r != ('PNum', n):
                     fail(kind, 'nFields = %r, %d complete records were written' % (r, n), {})
             elif k == 'times':
-                want = ('RTimes', bz(b''.join(t for t, _ in self.recs)))
+                want = ('PTimes', bz(b''.join(t for t, _ in self.recs)))
                 if r != want:
                     fail(kind, 'times differ from the times written', {'got': repr(r)[:300]})
             else:
                 idx = op[2]
                 if -n <= idx < n:
                     t, p = self.recs[idx]
-                    want = ('RRec', bz(t), bz(p)) if k == 'read' else ('RTimes', bz(t))
+                    want = ('PRec', bz(t), bz(p)) if k == 'read' else ('PTimes', bz(t))
                 else:
-                    want = ('RErr', 'EAssert')
+                    want = ('PErr', 'EAssert')
                 if r != want:
                     fail(kind, '%s(%d) with %d complete records: got %s' % (k, idx, n, repr(r)[:120]), {'want': repr(want)[:300]})
 
@@ -380,18 +443,19 @@ def gen_trace(rng, mode, path, nops, fails):
     h0 = rand_header(rng)
 
     def emit(op):
+        pre = {'raw': real.raw(), 'inited': bool(real.handles[op[1]][0].initialized)} if op[0] == 'init' else None
         res = real.do(op)
         ops.append(op)
         ress.append(res)
         # header-crash clause: a handle obtained from a torn header must report no records
-        if op[0] == 'open' and spec.header_torn and res[0] != ('RErr', 'EValue') and isinstance(res[0], tuple) and res[0][0] == 'RHdr':
+        if op[0] == 'open' and spec.header_torn and res[0] != ('PErr', 'EValue') and isinstance(res[0], tuple) and res[0][0] == 'PHdr':
             o = real.handles[-1][0]
             try:
                 if int(o.nFields) != 0:
                     fails.append(('header_crash', 'fromFile on a torn header reports %d records' % int(o.nFields), len(ops) - 1, {}))
             except Exception as e:      # noqa
                 pass
-        spec.check(op, res, real, lambda kind, msg, extra: fails.append((kind, msg, len(ops) - 1, extra)))
+        spec.check(op, res, real, lambda kind, msg, extra: fails.append((kind, msg, len(ops) - 1, extra)), pre=pre)
         return res
 
     # `sane`: the header region of the file is (a prefix of) a header written by initialize(); fromFile is only
@@ -400,7 +464,7 @@ def gen_trace(rng, mode, path, nops, fails):
 
     def emit_init(k, allow):
         r = emit(('init', k, allow))
-        if r[0] == 'ROk':
+        if r[0] == 'POk':
             st['file_h'], st['sane'] = real.handles[k][1], True
 
     emit(('new', h0))
@@ -430,7 +494,7 @@ def gen_trace(rng, mode, path, nops, fails):
             if not (0 <= n * ITEMSIZE[dt] <= 2048) or (raw is not None and len(raw) > 12000):
                 continue
             r = emit(('add', k, dt, n, rand_time(rng), rand_payload(rng, n * ITEMSIZE[dt])))
-            if r[0] == 'ROk' and (raw is None or st['file_h'] is None or len(raw) < hsize(st['file_h'])):
+            if r[0] == 'POk' and (raw is None or st['file_h'] is None or len(raw) < hsize(st['file_h'])):
                 st['sane'] = False
         elif u < 0.52:
             nf = 0 if raw is None else max(0, (len(raw) - hsize(hk)) // (8 + fsize(hk)))
@@ -474,7 +538,7 @@ def gen_trace(rng, mode, path, nops, fails):
     if real.raw() is not None and not st['sane']:
         return ops, ress
     r = emit(('open', 0))
-    if isinstance(r[0], tuple) and r[0][0] == 'RHdr':
+    if isinstance(r[0], tuple) and r[0][0] == 'PHdr':
         k = len(real.handles) - 1
         hk = real.handles[k][1]
         raw = real.raw()
@@ -487,36 +551,62 @@ def gen_trace(rng, mode, path, nops, fails):
     return ops, ress
 
 
-def coq_file(mode, traces):
+def coq_file(mode, traces, npre):
+    """traces: list of op lists; npre[i] = (key, n): the first n ops of trace i are shared by all traces with
+    the same key (emitted once), or None."""
     L = ['From Coq Require Import ZArith List Bool Uint63.', 'From PySDC Require Import Model.FieldsIO.',
          'Import ListNotations.', 'Open Scope Z_scope.', '']
+    done = set()
     for i, ops in enumerate(traces):
-        L.append('Definition tr%d : list op := [' % i)
+        pre = ''
+        skip = 0
+        if npre is not None and npre[i] is not None:
+            key, n = npre[i]
+            skip = n if key in done else 0     # the shared prefix is printed by the first trace of the key only
+            if key not in done:
+                done.add(key)
+                L.append('Definition pre%s : list op := [' % key)
+                L.append(';\n'.join('  ' + op_lit(o) for o in ops[:n]))
+                L.append('].')
+            pre = 'pre%s ++ ' % key
+            ops = ops[n:]
+        L.append('Definition tr%d : list op := %s[' % (i, pre))
         L.append(';\n'.join('  ' + op_lit(o) for o in ops))
         L.append('].')
-        L.append('Eval vm_compute in run0 %s tr%d.' % (mode, i))
+        L.append('Eval vm_compute in skipn %d%%nat (run0 %s tr%d).' % (skip, mode, i))
     return '\n'.join(L) + '\n'
 
 
-def run_coq_traces(ck, mode, traces, prefix, per_file=40):
+def run_coq_traces(ck, mode, traces, prefix, per_file=40, npre=None):
     """Evaluates the model on all traces (parallel coqc); returns list of per-trace result lists or None."""
     files = []
     for ci in range(0, len(traces), per_file):
         chunk = traces[ci:ci + per_file]
-        files.append((ck.write_gen('%s_%d.v' % (prefix, ci // per_file), coq_file(mode, chunk)), len(chunk)))
+        pres = None if npre is None else npre[ci:ci + per_file]
+        files.append((ck.write_gen('%s_%d.v' % (prefix, ci // per_file), coq_file(mode, chunk, pres)), len(chunk), pres))
     out_all = []
     with concurrent.futures.ThreadPoolExecutor(max_workers=12) as ex:
-        futs = [ex.submit(ck.coqc, p, 900) for p, _ in files]
-        for (p, n), fu in zip(files, futs):
+        futs = [ex.submit(ck.coqc, p, 900) for p, _, _ in files]
+        for (p, n, pres), fu in zip(files, futs):
             rc, out = fu.result()
             if rc != 0:
                 ck.obligation('%s evaluates' % os.path.basename(p), False, out[-1500:])
                 ck.violation('generated trace file does not compile', {'file': p, 'log': out[-3000:]}, match={'kind': 'gen'}, no_input=True)
                 return None
-            vals = [parse_coq_value(v.replace('%uint63', '')) for v in eval_outputs(out)]
+            vals = [fast_parse(v) for v in eval_outputs(out)]
             if len(vals) != n:
                 ck.violation('could not parse the model output', {'file': p, 'n': n, 'got': len(vals)}, match={'kind': 'gen'}, no_input=True)
                 return None
+            if pres is not None:      # re-attach the shared prefix results (printed once per key and file)
+                first = {}
+                for j, v in enumerate(vals):
+                    if pres[j] is None:
+                        continue
+                    key, npr = pres[j]
+                    if key not in first:
+                        first[key] = v[:npr]
+                    else:
+                        vals[j] = first[key] + v
             out_all += vals
     return out_all
 
@@ -528,6 +618,8 @@ def coq_ops(ops):
 def compare(ck, label, mode, all_ops, all_ress, model, fails_by_trace, tag):
     """Correspondence verdicts. Returns number of mismatching traces."""
     bad = 0
+    reported = {}
+    mism = set()
     for ti, (ops, ress, mod) in enumerate(zip(all_ops, all_ress, model)):
         ck.traces += 1
         diff = None
@@ -535,13 +627,18 @@ def compare(ck, label, mode, all_ops, all_ress, model, fails_by_trace, tag):
             diff = (-1, 'length', len(mod))
         else:
             for i, (a, b) in enumerate(zip(ress, mod)):
-                if tuple(a) != tuple(b):
-                    diff = (i, a, b)
+                if enc_obs(a) != tuple(b):
+                    diff = (i, enc_obs(a), b)
                     break
         if diff is None:
             continue
         bad += 1
+        mism.add(ti)
         fl = fails_by_trace[ti]
+        cls = fl[0][0] if fl else 'correspondence'
+        reported[cls] = reported.get(cls, 0) + 1
+        if reported[cls] > 3:          # the first three inputs of each class are kept as replays
+            continue
         replay = {'mode': mode, 'trace': [op_json(o) for o in ops], 'first_difference_at_op': diff[0],
                   'op': op_json(ops[diff[0]]) if diff[0] >= 0 else None,
                   'real': repr(diff[1])[:600], 'model': repr(diff[2])[:600]}
@@ -554,7 +651,9 @@ def compare(ck, label, mode, all_ops, all_ress, model, fails_by_trace, tag):
             ck.violation('%s: real FieldsIO deviates from the Coq model (op %d: real %s, model %s)' %
                          (label, diff[0], repr(diff[1])[:80], repr(diff[2])[:80]), replay,
                          match={'kind': 'correspondence', 'where': tag}, no_input=True)
-    return bad
+    if bad:
+        ck.cov['mismatching_traces_' + tag] = bad
+    return bad, mism
 
 
 # ----------------------------------------------------------------------------- mode probe
@@ -611,15 +710,17 @@ def crash_configs(rng, thorough):
         cfgs.append({'kind': 'R', 'dt': dt, 'nVar': 1, 'coords': [lin(2), lin(2)]})
         cfgs.append({'kind': 'R', 'dt': dt, 'nVar': 2 if dt in (0, 4) else 1, 'coords': [lin(1), lin(2), lin(2)]})
     if thorough:
-        for _ in range(24):
-            cfgs.append(rand_header(rng))
+        while len(cfgs) < 48:
+            h = rand_header(rng)
+            if fsize(h) <= 512 and hsize(h) <= 400:       # keeps the number of crash points per configuration moderate
+                cfgs.append(h)
     return [c for c in cfgs if not (c['kind'] == 'R' and not c['coords'])]
 
 
 def crash_scan(ck, rng, mode, scratch, thorough, fails_out):
     """For every config and every byte offset k of the last append: file = header + n records + first k
     bytes of the append; then re-open, observe everything, append again, observe."""
-    all_ops, all_ress, fails_by_trace = [], [], []
+    all_ops, all_ress, fails_by_trace, npre = [], [], [], []
     npoints = 0
     path = os.path.join(scratch, 'crash.pysdc')
     for ci, h in enumerate(crash_configs(rng, thorough)):
@@ -659,11 +760,12 @@ def crash_scan(ck, rng, mode, scratch, thorough, fails_out):
             all_ops.append(ops)
             all_ress.append(ress)
             fails_by_trace.append(fails)
+            npre.append((ci, len(pre)))
             npoints += 1
             ck.case(key=('crash', ci, k), nontrivial=0 < k < rS,
                     sample={'kind': 'crash-point', 'header': op_json(('h', h))[1], 'complete_records': nrec, 'offset_in_append': k} if k == 3 else None)
     fails_out.extend(fails_by_trace)
-    return all_ops, all_ress, fails_by_trace, npoints
+    return all_ops, all_ress, fails_by_trace, npoints, npre
 
 
 def header_crash_scan(ck, rng, scratch, thorough):
@@ -687,13 +789,13 @@ def header_crash_scan(ck, rng, scratch, thorough):
             emit(('init', 0, False))
             emit(('trunc', k))
             r = emit(('open', k % 3))
-            if isinstance(r[0], tuple) and r[0][0] == 'RHdr':
+            if isinstance(r[0], tuple) and r[0][0] == 'PHdr':
                 nf = emit(('nfields', 1))
                 ts = emit(('times', 1))
                 rd = emit(('read', 1, 0))
-                if k < hS and (nf[0] != ('RNum', 0) or ts[0] != ('RTimes', (0, [])) or rd[0] != ('RErr', 'EAssert')):
+                if k < hS and (nf[0] != ('PNum', 0) or ts[0] != ('PTimes', (0, [])) or rd[0] != ('PErr', 'EAssert')):
                     fails.append(('header_crash', 'a header cut at byte %d is opened and reports records: nFields %r' % (k, nf[0]), len(ops) - 1, {}))
-                if k == hS and r[0] != ('RHdr', 'SScalar' if h['kind'] == 'S' else 'SRect', h['dt'], h['nVar'], [bz(c) for c in h['coords']]):
+                if k == hS and r[0] != ('PHdr', 'SScalar' if h['kind'] == 'S' else 'SRect', h['dt'], h['nVar'], [bz(c) for c in h['coords']]):
                     fails.append(('header', 'complete header not read back', len(ops) - 1, {}))
             elif k == hS:
                 fails.append(('header', 'complete header rejected: %r' % (r[0],), len(ops) - 1, {}))
@@ -707,7 +809,7 @@ def header_crash_scan(ck, rng, scratch, thorough):
 
 # ----------------------------------------------------------------------------- blocks
 
-def blocks_part(ck, rng, thorough):
+def blocks_part(ck, rng, thorough, only=None):
     from pySDC.helpers.blocks import BlockDecomposition
     grids = [[1], [7], [64], [100], [2, 3], [16, 16], [5, 64], [64, 5], [31, 7], [256, 64],
              [4, 4, 4], [3, 5, 7], [16, 32, 7], [64, 8, 8], [1, 1, 9], [10, 10, 10]]
@@ -718,10 +820,12 @@ def blocks_part(ck, rng, thorough):
     procs = list(range(1, maxp + 1))
     cases = []
     nviol = 0
-    for algo in ('ChatGPT', 'Hybrid'):
-        for gs in grids:
-            for np_ in procs:
-                order = 'C' if (np_ + len(gs)) % 3 else 'F'
+    todo = [(algo, gs, np_, 'C' if (np_ + len(gs)) % 3 else 'F') for algo in ('ChatGPT', 'Hybrid') for gs in grids for np_ in procs]
+    if only is not None:
+        todo = [only]
+    for algo, gs, np_, order in todo:
+        if True:
+            if True:
                 try:
                     nb = [int(x) for x in BlockDecomposition(np_, list(gs), algo).nBlocks]
                 except Exception as e:     # noqa
@@ -762,9 +866,14 @@ def blocks_part(ck, rng, thorough):
                                  (np_, gs, algo, nb, (', grid point %s is owned by %d ranks' % (bad[0].tolist(), int(cover[tuple(bad[0])]))) if len(bad) else ''),
                                  {'nProcs': np_, 'gridSizes': gs, 'algo': algo, 'order': order, 'nBlocks': nb, 'localBounds': bounds[:16]},
                                  match={'kind': 'partition', 'algo': algo})
-                cases.append((algo, order, np_, gs, nb, bounds))
+                if np_ <= 12:
+                    sel = list(range(np_))
+                else:
+                    sel = sorted({0, 1, np_ - 1} | {rng.randrange(np_) for _ in range(3)})
+                cases.append((algo, order, np_, gs, nb, [bounds[g] for g in sel], sel))
                 ck.case(key=('blocks', algo, np_, tuple(gs)), nontrivial=np_ > 1,
                         sample={'kind': 'blocks', 'algo': algo, 'nProcs': np_, 'gridSizes': gs, 'nBlocks': nb} if np_ == 12 and len(gs) == 3 and len(ck.samples) < 5 else None)
+    ck.log('blocks: real code + oracle done')
     # Coq model, kernel-evaluated
     files = []
     per = 400
@@ -772,12 +881,13 @@ def blocks_part(ck, rng, thorough):
         chunk = cases[ci:ci + per]
         L = ['From Coq Require Import ZArith List Bool.', 'From PySDC Require Import Model.Blocks.',
              'Import ListNotations.', 'Open Scope Z_scope.', '',
-             'Definition cases : list (algo * order * Z * list Z) := [']
-        L.append(';\n'.join('  (%s, Order%s, %d, [%s])' % (a, o, p, '; '.join(map(str, gs))) for a, o, p, gs, _, _ in chunk))
+             'Definition cases : list (algo * order * Z * list Z * list Z) := [']
+        L.append(';\n'.join('  (%s, Order%s, %d, [%s], [%s])' % (a, o, p, '; '.join(map(str, gs)), '; '.join(map(str, sel + [p])))
+                            for a, o, p, gs, _, _, sel in chunk))
         L.append('].')
-        L.append("Definition ev (c : algo * order * Z * list Z) := let '(a, o, p, gs) := c in")
+        L.append("Definition ev (c : algo * order * Z * list Z * list Z) := let '(a, o, p, gs, sel) := c in")
         L.append('  match nBlocks a p gs with None => ([], []) | Some nb =>')
-        L.append('    (nb, map (fun g => localBounds o gs nb (Z.of_nat g)) (seq 0 (Z.to_nat p + 1))) end.')
+        L.append('    (nb, map (fun g => match localBounds o gs nb g with Some (lo, n) => (1, lo, n) | None => (0, [], []) end) sel) end.')
         L.append('Eval vm_compute in map ev cases.')
         files.append((ck.write_gen('Blocks_%d.v' % (ci // per), '\n'.join(L) + '\n'), chunk))
     nbad = 0
@@ -789,12 +899,12 @@ def blocks_part(ck, rng, thorough):
                 ck.obligation('%s evaluates' % os.path.basename(p), False, out[-1500:])
                 ck.violation('generated blocks file does not compile', {'file': p, 'log': out[-3000:]}, match={'kind': 'gen'}, no_input=True)
                 return
-            vals = parse_coq_value(eval_outputs(out)[0])
+            vals = fast_parse(eval_outputs(out)[0])
             assert len(vals) == len(chunk)
-            for (a, o, np_, gs, nb, bounds), (mnb, mb) in zip(chunk, vals):
+            for (a, o, np_, gs, nb, bounds, sel), (mnb, mb) in zip(chunk, vals):
                 ck.traces += 1
-                want = [('Some', (list(b[0]), list(b[1]))) if b is not None else 'None' for b in bounds] + ['None']
-                got = [x if x == 'None' else ('Some', (list(x[1][0]), list(x[1][1]))) for x in mb]
+                want = [(1, list(b[0]), list(b[1])) if b is not None else (0, [], []) for b in bounds] + [(0, [], [])]
+                got = [tuple(x) for x in mb]
                 if list(mnb) != nb or got != want:
                     nbad += 1
                     if nbad <= 5:
@@ -802,12 +912,188 @@ def blocks_part(ck, rng, thorough):
                                      (np_, gs, a, o, nb, list(mnb)),
                                      {'nProcs': np_, 'gridSizes': gs, 'algo': a, 'order': o, 'real': [nb, bounds[:8]], 'model': repr((mnb, mb[:8]))[:800]},
                                      match={'kind': 'blocks-correspondence', 'algo': a}, no_input=True)
-    ck.obligation('Blocks model = implementation on %d (algo, nProcs, grid) cases, every rank' % len(cases), nbad == 0)
+    ck.obligation('Blocks model = implementation on %d (algo, nProcs, grid) cases: nBlocks, localBounds of every rank (nProcs <= 12) or of ranks 0, 1, last, 3 random' % len(cases), nbad == 0)
     ck.cov['blocks_cases'] = len(cases)
     ck.cov['blocks_max_nProcs'] = maxp
 
 
+# ----------------------------------------------------------------------------- LogToFile (hooks/log_solution.py)
+
+def logtofile_part(ck, rng, mode, scratch):
+    """Drives the real LogToFile hook (pre_run / post_step / post_run / load) with a dummy level and problem:
+    a first run writes the initial condition and some steps, the file is cut at EVERY byte offset of the last
+    record (and not at all), a second hook instance resumes (pre_run with L.time > 0 -> FieldsIO.fromFile) and
+    logs further steps.  Oracle: fromFile/load return exactly what was logged, the counter equals the number of
+    complete records, a time that is already stored is refused.  Correspondence: the final bytes equal the model's."""
+    import logging
+    from types import SimpleNamespace as NS
+    from pySDC.helpers import fieldsIO as fio
+    from pySDC.implementations.hooks.log_solution import LogToFile
+    from pySDC.core.errors import DataError
+    logging.getLogger('hooks').setLevel(logging.ERROR)
+    path = os.path.join(scratch, 'hook.pysdc')
+    nvar = 3
+
+    class Prob:
+        def getOutputFile(self, fileName):
+            f = fio.Scalar(np.float64, fileName)
+            f.setHeader(nVar=nvar)
+            f.initialize()
+            return f
+
+        def setUpFieldsIO(self):
+            pass
+
+        def processSolutionForOutput(self, u):
+            return u
+
+    class Hook(LogToFile):
+        filename = path
+
+    prob = Prob()
+    h = {'kind': 'S', 'dt': 0, 'nVar': nvar, 'coords': []}
+    hS, rS = hsize(h), 8 + fsize(h)
+    dt = 0.1
+    us = [np.array([rng.uniform(-1, 1) for _ in range(nvar)]) for _ in range(8)]
+
+    def level(t, u0, uend):
+        return NS(levels=[NS(time=t, dt=dt, u=[u0], uend=uend, prob=prob)], status=NS(restart=False))
+
+    def first_run(nsteps):
+        if os.path.exists(path):
+            os.remove(path)
+        hk = Hook()
+        t = 0.0
+        hk.pre_run(level(t, us[0], None), 0)
+        written = [(0.0, us[0])]
+        for i in range(nsteps):
+            hk.post_step(level(t, us[i], us[i + 1]), 0)
+            written.append((t + dt, us[i + 1]))
+            t = t + dt
+        return written, t
+
+    traces, finals, npts, nfail = [], [], 0, 0
+    nsteps = 2
+    for cut in [None] + list(range(0, rS + 1)):
+        written, t = first_run(nsteps)
+        ops = [('new', h), ('init', 0, False)] + [('add', 0, 0, nvar, struct.pack('<d', tt), u.tobytes()) for tt, u in written]
+        full = os.path.getsize(path)
+        if cut is not None:
+            n = full - rS + cut               # the last record keeps only its first `cut` bytes
+            if n < full:
+                os.truncate(path, n)
+            ops.append(('trunc', n))
+            complete = written[:-1] if cut < rS else written
+        else:
+            complete = written
+        t_resume = complete[-1][0]
+        hk2 = Hook()
+        hk2.pre_run(level(t_resume, complete[-1][1], None), 0)       # L.time > 0 and the file exists: resume branch
+        ops.append(('open',))
+        npts += 1
+        ck.case(key=('logtofile', cut), nontrivial=cut is not None and 0 < cut < rS)
+        problems = []
+        if hk2.counter != len(complete) or Hook.counter != len(complete):
+            problems.append('counter %r/%r after resuming, %d complete records in the file' % (hk2.counter, Hook.counter, len(complete)))
+        # a time that is already stored must be refused
+        try:
+            hk2.post_step(level(t_resume - dt, None, complete[-1][1]), 0)
+            problems.append('a solution for an already stored time was logged again')
+        except DataError:
+            pass
+        hk2.t_next_log = 0
+        tt = t_resume
+        expect = list(complete)
+        for i in range(2):
+            u_new = us[4 + i]
+            hk2.post_step(level(tt, None, u_new), 0)
+            expect.append((tt + dt, u_new))
+            ops.append(('add', 1, 0, nvar, struct.pack('<d', tt + dt), u_new.tobytes()))
+            tt = tt + dt
+        torn = cut is not None and 0 < cut < rS
+        if not (torn and mode == 'Raw'):     # (with the raw append the stored times are garbage here and post_run would log again)
+            hk2.post_run(level(tt - dt, None, us[4 + 1]), 0)       # the final time is already stored: nothing is added
+        # oracle: what a fresh reader sees
+        try:
+            g = fio.FieldsIO.fromFile(path)
+            got = [(float(a), g.readField(i)[1].tobytes()) for i, a in enumerate(g.times)]
+            last = Hook.load(-1)
+            ok = (len(got) == len(expect) and all(struct.pack('<d', a) == struct.pack('<d', b) and bb == u.tobytes() for (a, bb), (b, u) in zip(got, expect))
+                  and struct.pack('<d', last['t']) == struct.pack('<d', expect[-1][0]) and last['u'].tobytes() == expect[-1][1].tobytes())
+        except Exception as e:      # noqa
+            ok = False
+            got = repr(e)
+        if not ok:
+            problems.append('after resuming and logging two more steps the file does not hold the logged solutions')
+        if problems:
+            if torn and mode == 'Raw' and problems == ['after resuming and logging two more steps the file does not hold the logged solutions']:
+                nfail += 1        # the raw-append finding, reported once by the probe
+            else:
+                ck.violation('LogToFile resume: ' + '; '.join(problems),
+                             {'cut_offset_in_last_record': cut, 'recSize': rS, 'logged': [(a, u.tolist()) for a, u in expect], 'read_back': repr(got)[:600]},
+                             match={'kind': 'append_after_torn_record' if torn else 'logtofile', 'where': 'LogToFile'})
+        ops.append(('trunc', 10 ** 6))          # no-op that makes the model print the final bytes
+        traces.append(ops)
+        with open(path, 'rb') as f:
+            finals.append(f.read())
+    model = run_coq_traces(ck, mode, [coq_ops(o) for o in traces], 'Hook', per_file=12)
+    if model is None:
+        return
+    nbad = 0
+    for ops, fin, mod in zip(traces, finals, model):
+        ck.traces += 1
+        if tuple(mod[-1][5]) != enc_snap(('PFile', bz(fin))):
+            nbad += 1
+            if nbad <= 2:
+                ck.violation('LogToFile: the bytes of the file written through the hook differ from the model of the same FieldsIO calls',
+                             {'ops': [op_json(o) for o in ops], 'real_file': fin.hex()}, match={'kind': 'correspondence', 'where': 'LogToFile'}, no_input=True)
+    ck.obligation('LogToFile resume path: file bytes = model for %d cut offsets of the last record' % npts, nbad == 0)
+    ck.cov['logtofile_resume_crash_points'] = npts
+    if nfail:
+        ck.cov['append_after_torn_record_occurrences_LogToFile'] = nfail
+
+
 # ----------------------------------------------------------------------------- main
+
+def replay(ck, scratch):
+    """./check C16 --replay <file>: re-executes the recorded input on the real code, the oracle and the model."""
+    import json
+    with open(ck.replay_file) as f:
+        rep = json.load(f)
+    rp = rep.get('replay', {})
+    mode, probe = probe_mode(ck, scratch)
+    ck.cov['addField_mode'] = mode
+    if 'steps' in rp or rep.get('match', {}).get('where') == 'LogToFile':
+        if mode != 'Aligned':
+            ck.violation('a field appended after re-opening a file whose last append was interrupted is NOT read back '
+                         '(readField(-1) = %s, expected (2.0, [5.0, 6.0]))' % (probe['readField(-1)'],), probe,
+                         match={'kind': 'append_after_torn_record'})
+        if rep.get('match', {}).get('where') == 'LogToFile':
+            logtofile_part(ck, ck.rng, 'Raw' if mode == 'Unknown' else mode, scratch)
+        return
+    if 'nProcs' in rp:
+        blocks_part(ck, ck.rng, False, only=(rp['algo'], rp['gridSizes'], rp['nProcs'], rp.get('order', 'C')))
+        return
+    trace = rp.get('trace') or rp.get('ops')
+    if not trace:
+        ck.violation('replay file carries no input', {'file': ck.replay_file}, match={'kind': 'gen'}, no_input=True)
+        return
+    mode = rp.get('mode', mode) if mode == 'Unknown' else mode
+    ops = [op_from_json(j) for j in trace]
+    real, spec, fails, ress = Real(os.path.join(scratch, 'replay.pysdc')), Spec(), [], []
+    for i, op in enumerate(ops):
+        pre = {'raw': real.raw(), 'inited': bool(real.handles[op[1]][0].initialized)} if op[0] == 'init' else None
+        res = real.do(op)
+        ress.append(res)
+        spec.check(op, res, real, lambda kind, msg, extra, i=i: fails.append((kind, msg, i, extra)), pre=pre)
+    ck.case(key=('replay',), nontrivial=True)
+    model = run_coq_traces(ck, mode, [coq_ops(ops)], 'Replay')
+    if model is None:
+        return
+    nbad, mism = compare(ck, 'replayed op sequence', mode, [ops], [ress], model, [fails], 'replay')
+    report_oracle(ck, [ops], [fails], 'n/a', 'replay', mism)
+    ck.obligation('replayed op sequence: model = implementation', nbad == 0)
+
 
 def run(ck):
     rng = ck.rng
@@ -819,6 +1105,9 @@ def run(ck):
     ck.check_props(required=REQUIRED)
     scratch = os.path.join(ck.gen, 'scratch')
     os.makedirs(scratch, exist_ok=True)
+    if getattr(ck, 'replay_file', None):
+        replay(ck, scratch)
+        return
 
     # ------------------------------------------------------------ 0. which addField does the tree have?
     mode, probe = probe_mode(ck, scratch)
@@ -842,40 +1131,51 @@ def run(ck):
         all_ops.append(ops)
         all_ress.append(ress)
         fails_by_trace.append(fails)
-        nadd = sum(1 for o, r in zip(ops, ress) if o[0] == 'add' and r[0] == 'ROk')
+        nadd = sum(1 for o, r in zip(ops, ress) if o[0] == 'add' and r[0] == 'POk')
         ck.case(key=('trace', str(hkey(ops[0][1])), tuple(o[0] for o in ops)), nontrivial=nadd > 0,
                 sample={'kind': 'trace', 'header': op_json(ops[0])[1], 'ops': [o[0] for o in ops][:20]} if ti < 2 else None)
+    ck.log('random traces executed on the real code')
     model = run_coq_traces(ck, mode, [coq_ops(o) for o in all_ops], 'Traces')
+    ck.log('model evaluated')
     if model is None:
         return
-    nbad = compare(ck, 'random op sequence', mode, all_ops, all_ress, model, fails_by_trace, 'trace')
+    nbad, mism = compare(ck, 'random op sequence', mode, all_ops, all_ress, model, fails_by_trace, 'trace')
     ck.obligation('FieldsIO model (%s) = implementation on %d op sequences (%d ops), bytes of the file after every write'
                   % (mode, ntr, sum(len(o) for o in all_ops)), nbad == 0)
-    report_oracle(ck, all_ops, fails_by_trace, mode, 'trace')
+    report_oracle(ck, all_ops, fails_by_trace, mode, 'trace', mism)
 
     # ------------------------------------------------------------ 2. every crash point of an append
     fo = []
-    c_ops, c_ress, c_fails, npts = crash_scan(ck, rng, mode, scratch, thorough, fo)
-    model = run_coq_traces(ck, mode, [coq_ops(o) for o in c_ops], 'Crash', per_file=60)
+    c_ops, c_ress, c_fails, npts, c_npre = crash_scan(ck, rng, mode, scratch, thorough, fo)
+    ck.log('append crash scan executed on the real code')
+    model = run_coq_traces(ck, mode, [coq_ops(o) for o in c_ops], 'Crash', per_file=60, npre=c_npre)
+    ck.log('model evaluated')
     if model is None:
         return
-    nbad = compare(ck, 'crash point of an append', mode, c_ops, c_ress, model, c_fails, 'crash-scan')
+    nbad, mism = compare(ck, 'crash point of an append', mode, c_ops, c_ress, model, c_fails, 'crash-scan')
     ck.obligation('model = implementation at every byte offset of an interrupted append (%d crash points)' % npts, nbad == 0)
-    report_oracle(ck, c_ops, c_fails, mode, 'crash-scan')
+    report_oracle(ck, c_ops, c_fails, mode, 'crash-scan', mism)
 
     # ------------------------------------------------------------ 3. every crash point of header creation
     h_ops, h_ress, h_fails, nh = header_crash_scan(ck, rng, scratch, thorough)
+    ck.log('header crash scan executed on the real code')
     model = run_coq_traces(ck, mode, [coq_ops(o) for o in h_ops], 'HCrash', per_file=150)
+    ck.log('model evaluated')
     if model is None:
         return
-    nbad = compare(ck, 'crash point of header creation', mode, h_ops, h_ress, model, h_fails, 'header-crash-scan')
+    nbad, mism = compare(ck, 'crash point of header creation', mode, h_ops, h_ress, model, h_fails, 'header-crash-scan')
     ck.obligation('model = implementation at every byte offset of an interrupted header (%d crash points)' % nh, nbad == 0)
-    report_oracle(ck, h_ops, h_fails, mode, 'header-crash-scan')
+    report_oracle(ck, h_ops, h_fails, mode, 'header-crash-scan', mism)
     ck.cov['exhaustive_crash_points'] = npts + nh
     ck.cov['exhaustive'] = True
 
-    # ------------------------------------------------------------ 4. blocks
+    # ------------------------------------------------------------ 4. LogToFile resume path
+    logtofile_part(ck, rng, mode, scratch)
+    ck.log('LogToFile done')
+
+    # ------------------------------------------------------------ 5. blocks
     blocks_part(ck, rng, thorough)
+    ck.log('blocks done')
 
     # scratch files are not evidence
     for fn in os.listdir(scratch):
@@ -885,12 +1185,14 @@ def run(ck):
             pass
 
 
-def report_oracle(ck, all_ops, fails_by_trace, mode, tag):
+def report_oracle(ck, all_ops, fails_by_trace, mode, tag, skip=()):
     """Oracle failures (independent of the model).  The known consequence of the raw append is reported once by
     the probe in run(); other kinds are reported per kind (first three inputs each)."""
     seen = {}
     n_after_torn = 0
-    for ops, fl in zip(all_ops, fails_by_trace):
+    for ti, (ops, fl) in enumerate(zip(all_ops, fails_by_trace)):
+        if ti in skip:
+            continue        # already reported together with the correspondence difference
         for kind, msg, at, extra in fl[:1]:
             if kind == 'append_after_torn_record' and mode == 'Raw':
                 n_after_torn += 1
